@@ -77,6 +77,10 @@ class CNLTransformer(Transformer):
         self._problem = Problem()
 
     def PROBLEM_IDENTIFIER(self, elem):
+        if self._problem.get_propositions():
+            # propositions written before this header belong to the part that is being closed, not to the new one
+            self._specification.add_problem(self._problem)
+            self._problem = Problem()
         if elem == "The following propositions apply in the initial state:":
             self._problem.name = 'initial'
         elif elem == "The following propositions always apply except in the initial state:":
